@@ -671,7 +671,11 @@ class Ceremony:
             i.update_scripts()
             return True
         if kind == 'sig_dup':
-            i.signatures.append(i.signatures[0])
+            if len(i.signatures) >= max(getattr(i, 'sigs_required', 1) or 1, 2) and ch.coin('dup_replace', 0.6):
+                # one signature in every slot: as many signatures as required, but of a single signer
+                i.signatures = [i.signatures[0]] * len(i.signatures)
+            else:
+                i.signatures.append(i.signatures[0])
             i.update_scripts()
             return True
         if kind == 'pubkey_swap':
@@ -712,7 +716,8 @@ class Ceremony:
             if kind == 'sig_hashtype' and is_sig(b):
                 return b[:-1] + bytes([ch.pick('w_ht', [2, 3, 0x81, 0x82, 0x83, 0])])
             if kind == 'sig_der_byte' and is_sig(b):
-                pos = 6 + ch.index('w_pos', 20)
+                # any byte of the DER structure (tag, lengths, r, s), not the hash-type byte
+                pos = ch.pick('w_pos', [0, 1, 2, 3] + list(range(4, 40)))
                 return b[:pos] + bytes([b[pos] ^ 1]) + b[pos + 1:]
             if kind == 'pubkey_byte' and is_pub(b):
                 pos = 1 + ch.index('w_pos', 30)
